@@ -2,7 +2,7 @@
    Statements only; each closed by [exact] of a lemma proved in Json/*P.v. *)
 From Coq Require Import List NArith ZArith.
 From PB Require Import Base.PBytes Json.JsonGrammar Json.JsonNumModel Json.JsonNumP Json.JsonIntP
-  Json.JsonLexModel Json.JsonLexP Json.JsonEncModel Json.JsonScalarModel Json.JsonScalarP Json.JsonB64P Json.JsonB64VarP Json.JsonB64IffP Json.JsonInt64P.
+  Json.JsonLexModel Json.JsonLexP Json.JsonEncModel Json.JsonScalarModel Json.JsonScalarP Json.JsonB64P Json.JsonB64VarP Json.JsonB64IffP Json.JsonInt64P Json.JsonQuotedP.
 Import ListNotations.
 Open Scope N_scope.
 
@@ -63,6 +63,27 @@ Theorem C22_unmarshal_uint_sound :
        (t_kind tok = KString /\ exists w1 w2, ws w1 /\ ws w2 /\ t_str tok = w1 ++ raw ++ w2)).
 Proof. exact unmarshal_uint_sound. Qed.
 Print Assumptions C22_unmarshal_uint_sound.
+
+(* int_decode_exact at the protojson layer (unmarshalInt / unmarshalUint, bare and quoted):
+   outside the F6 class a token is accepted with value v iff it is a number token, or a string
+   token whose whole content is one number literal (no surrounding whitespace), and the literal
+   denotes the integer v representable in the type. *)
+Theorem C22_unmarshal_int_exact_except_F6 :
+  forall bits tok v, 1 <= bits <= 64 -> lexeme (t_kind tok) (t_raw tok) ->
+    (forall lit, int_literal_of tok = Some lit -> f6_class lit = false) ->
+    (unmarshal_int bits tok = Some v <->
+     exists lit, int_literal_of tok = Some lit /\ rfc_number lit /\ lit_is_int lit v /\ int_in_range bits true v).
+Proof. exact unmarshal_int_exact_except_F6. Qed.
+Print Assumptions C22_unmarshal_int_exact_except_F6.
+
+Theorem C22_unmarshal_uint_exact_except_F6 :
+  forall bits tok v, bits <= 64 -> lexeme (t_kind tok) (t_raw tok) ->
+    (forall lit, int_literal_of tok = Some lit -> f6_class lit = false) ->
+    (unmarshal_uint bits tok = Some v <->
+     exists lit, int_literal_of tok = Some lit /\ rfc_number lit /\ lit_is_int lit (Z.of_N v) /\
+                 int_in_range bits false (Z.of_N v)).
+Proof. exact unmarshal_uint_exact_except_F6. Qed.
+Print Assumptions C22_unmarshal_uint_exact_except_F6.
 
 (* enums: by name (first declared value of that name) or by any int32 number *)
 Theorem C22_enum_by_name :
